@@ -186,26 +186,52 @@ def _proj():
     return _P["d"]
 
 
-def _lint_text(name, text):
+def _lint_text(name, text, companions=None):
+    """Violations of the file `name`; companions (name -> text) are linted in the same run (cross-file rules)."""
     from src.orchestrator.core import Orchestrator
     import src.linter_config.ignore as ign
     ign.clear_ignore_parser_cache()
     d = _proj()
     f = d / "src" / name
     f.write_text(text)
+    others = []
+    for n, t in (companions or {}).items():
+        (d / "src" / n).write_text(t)
+        others.append(d / "src" / n)
     try:
-        return Orchestrator(project_root=d).lint_files([f])
+        return [v for v in Orchestrator(project_root=d).lint_files([f] + others) if v.file_path == str(f)]
     finally:
         f.unlink()
+        for o in others:
+            o.unlink()
+
+
+# cross-file findings: (language, rule prefix, line, text, companions, the OTHER rule named by the *-other forms)
+_TWO_RULES = ("def route(status, env):\n    if status in (\"active\", \"pending\", \"closed\") and env == \"production\":\n        return 1\n"
+              "    if env == \"staging\":\n        return 2\n    return 0\n")
+_TWO_RULES_B = ("def route_b(status, env, extra):\n    audit(extra)\n    if status in (\"active\", \"pending\", \"closed\") and env == \"production\":\n        return compute(extra)\n"
+                "    if env == \"staging\":\n        return fallback(extra)\n    return None\n")
+CROSS = {
+    # one line carrying findings of two different stringly-typed rules
+    "stringly-two-rules.py": ("python", "stringly-typed.repeated-validation", 2, _TWO_RULES,
+                              {"stringly-two-rules-b.py": _TWO_RULES_B}, "stringly-typed.scattered-comparison"),
+    "stringly-two-rules-scattered.py": ("python", "stringly-typed.scattered-comparison", 2, _TWO_RULES,
+                                        {"stringly-two-rules-b.py": _TWO_RULES_B}, "stringly-typed.repeated-validation"),
+    "dup1.py": ("python", "dry.duplicate-code", 2, triggers.DUP_FILES["dup1.py"], {"dup2.py": triggers.DUP_FILES["dup2.py"]}, "srp"),
+}
 
 
 SKIP = {"lazy.py"}   # lazy-ignores is about the suppression comments themselves (excluded by the property)
 
 
 def h_every_linter(ctx):
-    names = tuple(n for n in triggers.T if n not in SKIP)
+    names = tuple(n for n in triggers.T if n not in SKIP) + tuple(CROSS)
     tname = ctx.pick("trigger", names)
-    lang, rule_prefix, vline, text = triggers.T[tname]
+    companions, other_rule = None, None
+    if tname in CROSS:
+        lang, rule_prefix, vline, text, companions, other_rule = CROSS[tname]
+    else:
+        lang, rule_prefix, vline, text = triggers.T[tname]
     style = "#" if lang == "python" else "//"
     form = ctx.pick("form", ("same-line", "next-line", "block", "file", "same-line-other", "next-line-other", "file-other", "block-far",
                              "same-line-space-other", "file-space-other", "next-line-trailing-other"))
@@ -213,7 +239,7 @@ def h_every_linter(ctx):
     ctx.note("linter", rule_prefix.split(".")[0])
     ctx.note("form", form)
     ctx.note("lang", lang)
-    base = _lint_text(tname, text)
+    base = _lint_text(tname, text, companions)
     mine = [v for v in base if v.rule_id.startswith(rule_prefix) and v.line == vline]
     ctx.require("catalogue-entry-triggers", len(mine) >= 1, trigger=tname)
     if not mine:
@@ -222,7 +248,7 @@ def h_every_linter(ctx):
     sp = spellings(rid)
     name = {"prefix": sp["prefix"], "full": sp["full"],
             "wildcard-upper": (sp["wildcard"] if "." in rid else sp["prefix"]).upper()}[spelling]
-    other = "srp" if not rid.startswith("srp") else "nesting"
+    other = other_rule or ("srp" if not rid.startswith("srp") else "nesting")
     lines = text.split("\n")
     shift_at, shift = None, 0
     if form.endswith("-other"):
@@ -253,7 +279,7 @@ def h_every_linter(ctx):
     elif f == "file":
         lines.insert(0, _directive("file", style, "thailint", name))
         shift_at, shift = 1, 1
-    after = _lint_text(tname, "\n".join(lines))
+    after = _lint_text(tname, "\n".join(lines), companions)
     directive_texts = [_directive(k, style, "thailint", name) for k in ("same-line", "next-line", "block-start", "block-end", "file", "same-line-space", "file-space")]
 
     def key(v, shifted):
@@ -270,12 +296,22 @@ def h_every_linter(ctx):
         return (v.rule_id, ln, msg)
     kb = Counter(key(v, False) for v in base if not v.rule_id.startswith("file-header") and not v.rule_id.startswith("lazy-ignores"))
     ka = Counter(key(v, True) for v in after if not v.rule_id.startswith("file-header") and not v.rule_id.startswith("lazy-ignores"))
-    targeted = Counter({k: c for k, c in kb.items() if k[0] == rid and (f in ("file",) or k[1] == vline)})
+    # a prefix / wildcard spelling names every rule of the linter, the full id only that rule
+    named = (lambda r: r == rid) if spelling == "full" else (lambda r: r.split(".")[0] == rid.split(".")[0])
+    targeted = Counter({k: c for k, c in kb.items() if named(k[0]) and (f in ("file",) or k[1] == vline)})
+    if tname == "dup1.py" and f == "block":
+        ctx.assume(False)      # the block-end line would sit inside the duplicated block and change the block itself
     if form in ("same-line", "next-line", "block", "file"):
         want = kb - targeted
         ctx.cover("suppressed")
-    else:
+    elif f == "block-far" or form == "next-line-trailing-other":
         want = kb
+        ctx.cover("unchanged")
+    else:
+        # a directive naming ANOTHER rule removes that rule's findings in its scope (if it has any there) and nothing else
+        in_scope_of_other = Counter({k: c for k, c in kb.items() if (k[0] == other or k[0].split(".")[0] == other)
+                                     and (f.startswith("file") or k[1] == vline)})
+        want = kb - in_scope_of_other
         ctx.cover("unchanged")
     ctx.require("directive-removes-exactly-the-named-violations-in-scope", ka == want, trigger=tname, form=form,
                 name=name, still_there=[list(k) for k in (ka - want)][:3], wrongly_removed=[list(k) for k in (want - ka)][:3])
